@@ -475,6 +475,11 @@ func (clnt *Clnt) logFcall(fc *Fcall) {
 		f := new(Fcall)
 		*f = *fc
 		f.Pkt = nil
+		if fc.Data != nil {
+			/* the payload lives in a buffer that is used again */
+			f.Data = make([]byte, len(fc.Data))
+			copy(f.Data, fc.Data)
+		}
 		clnt.Log.Log(f, clnt, DbgLogFcalls)
 	}
 }
